@@ -431,3 +431,4 @@ def distribution(results):
                 d[out] += 1
             d["max_conns"] = max(d["max_conns"], max((len(x) for x in step[4]), default=0))
     return d
+
